@@ -34,7 +34,8 @@ class Findings:
                 continue
             if api not in e["api"]:
                 continue
-            if signature not in e["signature"]:
+            # "raises" in an entry stands for an exception of any class ("raises:Class" for that class only)
+            if signature not in e["signature"] and not (signature.startswith("raises") and "raises" in e["signature"]):
                 continue
             try:
                 if eval(e["region"], {"__builtins__": {}}, dict(cfg, min=min, max=max, any=any, all=all, len=len)):
